@@ -32,7 +32,7 @@ import (
 )
 
 // abstraction function: newline-delimited JSON documents -> ids
-func c19ParseLines(body []byte, orig map[int][]byte) c19Req {
+func c19ParseLines(body []byte, orig map[int][]byte, _ map[int]string) c19Req {
 	r := c19Req{IDs: []int{}}
 	if len(body) == 0 {
 		return r
@@ -92,7 +92,7 @@ func (w *c19FileWorker) run(c *c19Case) (res c19CaseRes) {
 		}
 		br := c19BatchRes{Acked: acked}
 		if len(all) > off {
-			r := c19ParseLines(all[off:], x.orig)
+			r := c19ParseLines(all[off:], x.orig, nil)
 			r.OK, r.Status, r.Bytes = true, 200, len(all)-off
 			br.Reqs = append(br.Reqs, r)
 			off = len(all)
@@ -154,6 +154,7 @@ type c19Req struct {
 	Status  int          `json:"st"`
 	Framing []c19Framing `json:"framing,omitempty"`
 	DocDiff []int        `json:"doc_diff,omitempty"`
+	Routing []c19Framing `json:"routing,omitempty"` // routing value of a record is not the one of its own event
 	Bytes   int          `json:"bytes"`
 }
 
@@ -195,6 +196,38 @@ func c19Val(class int) (string, bool) {
 	default:
 		return `"a\u0001\tb"`, true
 	}
+}
+
+// the same value as the raw string a plugin reads with AsString(); "" when absent or empty
+func c19ValRaw(class int) string {
+	switch class {
+	case 0:
+		return "svc-a"
+	case 1, 2:
+		return ""
+	case 3:
+		return "a\xff\xfeb"
+	case 4:
+		return "ü %z ☃"
+	case 5:
+		return `a"b`
+	case 6:
+		return `a\b`
+	case 7:
+		return "a\nb"
+	case 8:
+		return "x\"}}\n{\"index\":{\"_index\":\"y"
+	default:
+		return "a\x01\tb"
+	}
+}
+
+// a string as encoding/json hands it back (every invalid UTF-8 byte -> U+FFFD), for comparisons with decoded JSON
+func c19Norm(s string) string {
+	b, _ := json.Marshal(s)
+	var out string
+	_ = json.Unmarshal(b, &out)
+	return out
 }
 
 func c19Msg(id int) string {
@@ -284,16 +317,17 @@ func c19Rejects(pat [][]int, ids []int) bool {
 // ---- capture: what the sink saw for the batch in flight ------------------------------------------------
 
 type c19Capture struct {
-	mu   sync.Mutex
-	pat  [][]int
-	fail bool
-	orig map[int][]byte
-	reqs []c19Req
+	mu    sync.Mutex
+	pat   [][]int
+	fail  bool
+	orig  map[int][]byte
+	route map[int]string // id -> the event's own routing value ("" = absent or empty)
+	reqs  []c19Req
 }
 
-func (s *c19Capture) arm(pat [][]int, orig map[int][]byte, fail bool) {
+func (s *c19Capture) arm(pat [][]int, x *c19Events, fail bool) {
 	s.mu.Lock()
-	s.pat, s.orig, s.fail, s.reqs = pat, orig, fail, nil
+	s.pat, s.orig, s.route, s.fail, s.reqs = pat, x.orig, x.route, fail, nil
 	s.mu.Unlock()
 }
 
@@ -306,7 +340,7 @@ func (s *c19Capture) take() []c19Req {
 // in-process HTTP sink: parses every body with the sink-specific abstraction function, answers 413 by pattern
 type c19HTTPSink struct {
 	c19Capture
-	parse    func(body []byte, orig map[int][]byte) c19Req
+	parse    func(body []byte, orig map[int][]byte, route map[int]string) c19Req
 	okStatus int
 	okBody   string
 }
@@ -314,7 +348,7 @@ type c19HTTPSink struct {
 func (s *c19HTTPSink) ServeHTTP(w http.ResponseWriter, req *http.Request) {
 	body, _ := io.ReadAll(req.Body)
 	s.mu.Lock()
-	r := s.parse(body, s.orig)
+	r := s.parse(body, s.orig, s.route)
 	r.Bytes = len(body)
 	if r.IDs == nil {
 		r.IDs = []int{}
@@ -381,6 +415,7 @@ var c19Values = map[string]int{"gomaxprocs": 1, "capacity": 64}
 type c19Events struct {
 	evs   []*pipeline.Event
 	orig  map[int][]byte
+	route map[int]string
 	roots []*insaneJSON.Root
 }
 
@@ -393,10 +428,11 @@ func (x *c19Events) release() {
 // the events of one batch; the last one carries a Size that seals the batch through batch_size_bytes, so batch
 // boundaries are exactly the case's, without any timing
 func c19MakeEvents(b []c19Ev, seq *uint64) *c19Events {
-	x := &c19Events{orig: map[int][]byte{}}
+	x := &c19Events{orig: map[int][]byte{}, route: map[int]string{}}
 	for i, e := range b {
 		js := c19EventJSON(e)
 		x.orig[e.ID] = js
+		x.route[e.ID] = c19ValRaw(e.Val)
 		root := insaneJSON.Spawn()
 		x.roots = append(x.roots, root)
 		if err := root.DecodeBytes(js); err != nil {
